@@ -22,9 +22,9 @@ import (
 
 func init() {
 	register(&propDef{
-		ID:    "C16",
-		Title: "A written CDB file returns every value, in order, and nothing else",
-		Run:   runC16,
+		ID:          "C16",
+		Title:       "A written CDB file returns every value, in order, and nothing else",
+		Run:         runC16,
 		Explanation: "Structural necessary conditions of the CDB file format round trip, decided on SSA with a small symbolic normal form for unsigned index arithmetic (shifts, masks, /, % by powers of two folded; + and * flattened and sorted): (select) writer, Make and reader derive table number and start slot from the same bit slices of the same hash, and the header entry of table i sits at 8i (position) and 8i+4 (slot count) on both sides; (layout) record header is klen,dlen then key then value and every position advance is 8+klen+dlen; (probe) both sides advance one slot and wrap at the table size, the reader stops at an empty slot or after hslots probes; (accept) a record is returned only when stored hash, key length and key bytes all match, with dpos = pos+8+klen and dlen the stored one; (capacity) tables have twice as many slots as entries and data starts at the non-zero header size, so an empty slot (pos 0) always exists and never denotes a record; (header-last) the header is written after a successful flush and seek to 0, and write errors are returned; (order) entries are appended per table and placed in slice order; (full-reads) no io.Reader.Read result count is ignored. Equality of lookup results with the written multiset over all inputs is NOT decided: it needs evaluation of the hash and of the probing on concrete data.",
 	})
 }
@@ -56,8 +56,8 @@ type term struct {
 	args []*term
 }
 
-func tConst(k uint64) *term  { return &term{op: "const", k: k} }
-func tSym(n string) *term    { return &term{op: "sym", name: n} }
+func tConst(k uint64) *term   { return &term{op: "const", k: k} }
+func tSym(n string) *term     { return &term{op: "sym", name: n} }
 func (t *term) isConst() bool { return t.op == "const" }
 
 func (t *term) String() string {
@@ -155,10 +155,11 @@ func tMod(x *term, k *term) *term {
 
 // termEnv names the leaves: hash calls, fields, parameters.
 type termEnv struct {
-	c       *Ctx
-	fn      *ssa.Function
-	hashFld map[*types.Var]bool // struct fields that carry the key hash
-	depth   int
+	c        *Ctx
+	fn       *ssa.Function
+	hashFld  map[*types.Var]bool // struct fields that carry the key hash
+	depth    int
+	lenOfCut bool // normalise len(x[:n]) to n
 }
 
 func (e *termEnv) isHashCall(call *ssa.Call) bool {
@@ -205,6 +206,12 @@ func (e *termEnv) of(v ssa.Value) *term {
 			return tSym("HASH")
 		}
 		if bi, ok := x.Call.Value.(*ssa.Builtin); ok && bi.Name() == "len" {
+			// len(x[:n]) is n: a table cut to its slot count has that many slots (only where a rule asks for it)
+			if e.lenOfCut {
+				if sl, ok := x.Call.Args[0].(*ssa.Slice); ok && sl.High != nil && sl.Max == nil && sl.Low == nil {
+					return e.of(sl.High)
+				}
+			}
 			return tSym("len(" + e.leafName(x.Call.Args[0]) + ")")
 		}
 		return tSym("call:" + funcShortOf(x) + "@" + x.Name())
@@ -532,6 +539,12 @@ func c16Select(c *Ctx) {
 				}
 				found = true
 				sameN := nslots != nil && env.of(bo.Y).String() == env.of(nslots).String()
+				if !sameN && nslots != nil {
+					// the modulus spelled as the length of the table cut to its slot count
+					env.lenOfCut = true
+					sameN = env.of(bo.Y).String() == env.of(nslots).String()
+					env.lenOfCut = false
+				}
 				c.Check(rule, fnName(fn)+"|start-slot", t.args[0].String() == "div(HASH,256)" && sameN, bo.Pos(), fmt.Sprintf("start slot = %s; modulus is the slot count stored in the header: %v", t, sameN))
 			}
 		}
@@ -921,12 +934,10 @@ func c16Accept(c *Ctx) {
 		var hashEq, lenEq, bytesEq bool
 		var slotPos string
 		for _, f := range factsAt(ret.Block()) {
-			if !f.Truth {
-				continue
-			}
 			switch x := f.V.(type) {
 			case *ssa.BinOp:
-				if x.Op != token.EQL {
+				// equality known: `a == b` came out true, or `a != b` came out false (guard clause with continue)
+				if !((x.Op == token.EQL && f.Truth) || (x.Op == token.NEQ && !f.Truth)) {
 					continue
 				}
 				a, b := env.of(x.X).String(), env.of(x.Y).String()
@@ -940,7 +951,7 @@ func c16Accept(c *Ctx) {
 					lenEq = true
 				}
 			case *ssa.Call:
-				if calleeOf(x.Common()) == match && len(x.Call.Args) == 3 {
+				if f.Truth && calleeOf(x.Common()) == match && len(x.Call.Args) == 3 {
 					if env.of(x.Call.Args[2]).String() == "add(num1@[.kpos],8)" && pathOf(x.Call.Args[1]) == "key" {
 						bytesEq = true
 					}
